@@ -27,6 +27,9 @@ pub struct C10 {
     /// (amount, duration, weight) of every fresh single-position weight observed
     seen: Vec<(u128, u64, u128)>,
     pub sweep_every: usize,
+    /// how often each (user, LP token) weight history changed: an upper bound on the units that
+    /// rounding can have taken from that user's weight
+    changes: BTreeMap<(String, String), u128>,
 }
 
 impl C10 {
@@ -36,6 +39,7 @@ impl C10 {
             pieces: BTreeSet::new(),
             seen: vec![],
             sweep_every: 150,
+            changes: BTreeMap::new(),
         }
     }
 }
@@ -253,6 +257,41 @@ impl Monitor for C10 {
                 rep.failed("no_open_no_weight", None, format!("{} has weight in {d} without an open position", w.name_of(a)), witness(json!({"address": w.name_of(a), "lp": d, "snapshots": h.iter().map(|(e, x)| (e.to_string(), x.to_string())).collect::<BTreeMap<_, _>>()})));
             } else {
                 rep.held("no_open_no_weight", abs, || json!({"address": w.name_of(a), "lp": d, "has_open_position": open.contains(&(a.clone(), d.clone()))}));
+            }
+        }
+
+        for (k, h) in &s.fpost.weights {
+            if k.0 != fm_addr && s.fpre.weights.get(k) != Some(h) {
+                *self.changes.entry(k.clone()).or_default() += 1;
+            }
+        }
+        // clause 2b: a user's latest weight covers its open positions - every open position weighs
+        // at least its LP amount and at most 16 times it, so the user's weight in an LP token
+        // lies between the sum of its open amounts and 16 times that sum (one unit of rounding
+        // per position the user ever split or built in pieces there)
+        {
+            let mut sums: BTreeMap<(String, String), (u128, u128)> = BTreeMap::new();
+            for p in s.fpost.positions.values() {
+                let e = sums.entry((p.receiver.to_string(), p.lp_asset.denom.clone())).or_default();
+                e.1 += 1;
+                if p.open {
+                    e.0 += p.lp_asset.amount.u128();
+                }
+            }
+            for ((a, d), (open_lp, npos)) in &sums {
+                if *open_lp == 0 {
+                    continue;
+                }
+                let latest = s.fpost.weights.get(&(a.clone(), d.clone())).and_then(|h| h.iter().next_back().map(|(_, x)| *x)).unwrap_or(0);
+                let slack = *npos + 2 + self.changes.get(&(a.clone(), d.clone())).copied().unwrap_or(0);
+                let abs = hash_of(&("covers", s.op.kind(), (*open_lp as f64).log10() as i32));
+                if latest + slack < *open_lp {
+                    rep.failed("weight_covers_open_lp", None, format!("{} holds open positions of {open_lp} {d} but its weight is only {latest}", w.name_of(a)), witness(json!({"address": w.name_of(a), "lp": d, "open_lp": open_lp.to_string(), "weight": latest.to_string()})));
+                } else if bi(latest) > bi(*open_lp) * 16 + bi(slack) {
+                    rep.failed("weight_covers_open_lp", None, format!("{} holds open positions of {open_lp} {d} but its weight is {latest}, more than 16 times that", w.name_of(a)), witness(json!({"address": w.name_of(a), "lp": d, "open_lp": open_lp.to_string(), "weight": latest.to_string()})));
+                } else {
+                    rep.held("weight_covers_open_lp", abs, || json!({"address": w.name_of(a), "lp": d, "open_lp": open_lp.to_string(), "weight": latest.to_string()}));
+                }
             }
         }
 
